@@ -22,7 +22,7 @@ from typing import (
 import certifi
 import service_identity
 from cryptography import x509
-from cryptography.exceptions import InvalidSignature
+from cryptography.exceptions import InvalidSignature, UnsupportedAlgorithm
 from cryptography.hazmat.backends import default_backend
 from cryptography.hazmat.primitives import hashes, hmac, serialization
 from cryptography.hazmat.primitives.asymmetric import (
@@ -475,7 +475,10 @@ def pull_server_name(buf: Buffer) -> str:
             raise AlertIllegalParameter(
                 f"ServerName has an unknown name type {name_type}"
             )
-        return pull_opaque(buf, 2).decode("ascii")
+        try:
+            return pull_opaque(buf, 2).decode("ascii")
+        except UnicodeDecodeError:
+            raise AlertIllegalParameter("ServerName is not ASCII")
 
 
 def push_server_name(buf: Buffer, server_name: str) -> None:
@@ -862,9 +865,10 @@ def pull_encrypted_extensions(buf: Buffer) -> EncryptedExtensions:
             extension_type = buf.pull_uint16()
             extension_length = buf.pull_uint16()
             if extension_type == ExtensionType.ALPN:
-                extensions.alpn_protocol = pull_list(
-                    buf, 2, partial(pull_alpn_protocol, buf)
-                )[0]
+                alpn_protocols = pull_list(buf, 2, partial(pull_alpn_protocol, buf))
+                if not alpn_protocols:
+                    raise AlertDecodeError("ALPN extension contains no usable protocol")
+                extensions.alpn_protocol = alpn_protocols[0]
             elif extension_type == ExtensionType.EARLY_DATA:
                 extensions.early_data = True
             else:
@@ -1504,6 +1508,24 @@ class Context:
                 "CertificateVerify has a signature algorithm we did not advertise"
             )
 
+        # The signature algorithm must be usable with the certificate's public key.
+        try:
+            peer_public_key = self._peer_certificate.public_key()
+        except (ValueError, UnsupportedAlgorithm):
+            raise AlertBadCertificate("Certificate has an unsupported public key")
+        if verify.algorithm == SignatureAlgorithm.ED25519:
+            key_matches = isinstance(peer_public_key, ed25519.Ed25519PublicKey)
+        elif verify.algorithm == SignatureAlgorithm.ED448:
+            key_matches = isinstance(peer_public_key, ed448.Ed448PublicKey)
+        elif SIGNATURE_ALGORITHMS[verify.algorithm][0] is None:
+            key_matches = isinstance(peer_public_key, ec.EllipticCurvePublicKey)
+        else:
+            key_matches = isinstance(peer_public_key, rsa.RSAPublicKey)
+        if not key_matches:
+            raise AlertIllegalParameter(
+                "CertificateVerify algorithm does not match the certificate's key"
+            )
+
         try:
             # The type of public_key() is CertificatePublicKeyTypes, but along with
             # ed25519 and ed448, which are fine, this type includes
@@ -1521,7 +1543,7 @@ class Context:
                 ),
                 *signature_algorithm_params(verify.algorithm),
             )
-        except InvalidSignature:
+        except (InvalidSignature, ValueError):
             raise AlertDecryptError
 
     def _client_send_hello(self, output_buf: Buffer) -> None:
@@ -2167,13 +2189,18 @@ class Context:
         )
 
     def _set_peer_certificate(self, certificate: Certificate) -> None:
-        self._peer_certificate = x509.load_der_x509_certificate(
-            certificate.certificates[0][0]
-        )
-        self._peer_certificate_chain = [
-            x509.load_der_x509_certificate(certificate.certificates[i][0])
-            for i in range(1, len(certificate.certificates))
-        ]
+        if not certificate.certificates:
+            raise AlertDecodeError("Certificate message contains no certificate")
+        try:
+            self._peer_certificate = x509.load_der_x509_certificate(
+                certificate.certificates[0][0]
+            )
+            self._peer_certificate_chain = [
+                x509.load_der_x509_certificate(certificate.certificates[i][0])
+                for i in range(1, len(certificate.certificates))
+            ]
+        except ValueError:
+            raise AlertBadCertificate("Could not parse certificate")
 
     def _set_state(self, state: State) -> None:
         if self.__logger:
